@@ -279,7 +279,16 @@ func RunRestartHistory(o HistOpts) *HistResult {
 					continue
 				}
 				// what the runtime creates while the plugin is down must not be a capacity
-				// question: keep it small so that a missing allocation is never "did not fit"
+				// question: keep it small so that a missing allocation is never "did not fit",
+				// and create nothing on a node whose CPUs are already (nearly) all requested -
+				// no scheduler would place a pod there
+				total := 0
+				for _, c := range r.LiveCtrs() {
+					total += c.ReqMilli
+				}
+				if total > 800*len(Machine().OnlineCPUs())-2000 {
+					continue
+				}
 				p := r.M.Pods[s.Pod]
 				if p != nil && p.QoS != "BestEffort" {
 					s.Req, s.Lim = 100, 100
@@ -290,6 +299,31 @@ func RunRestartHistory(o HistOpts) *HistResult {
 				}
 			}
 			r.Do(s)
+		}
+		if rng.Chance(1, 4) {
+			// a whole pod vanished while the plugin was down: its containers and the sandbox are gone from the runtime's
+			// lists, the cache still has all of them
+			var cands []string
+			for _, k := range r.M.PodKeys() {
+				if p := r.M.Pods[k]; p.State == StRunning {
+					for _, c := range r.M.PodCtrs(k) {
+						if c.Live() {
+							cands = append(cands, k)
+							break
+						}
+					}
+				}
+			}
+			if len(cands) > 0 {
+				k := sysgen.Pick(rng, cands)
+				for _, c := range r.M.PodCtrs(k) {
+					if c.State != StRemoved {
+						r.Do(&Step{Op: "remove", Pod: k, Ctr: c.Key})
+					}
+				}
+				r.Do(&Step{Op: "removepod", Pod: k})
+				r.Count("c11_pod_vanished_with_live_containers")
+			}
 		}
 		if rng.Chance(1, 4) {
 			// A pod re-created under the same name while the plugin was down, its old sandbox still terminating: the
@@ -356,6 +390,17 @@ func (r *Runner) referenceSyncAllocatesAll() (bool, error) {
 	defer twin.Close()
 	tr := NewRunner(twin, r.M, r.Hist)
 	pods, ctrs := r.RuntimeLists()
+	// The reference answers one question only: is there room for all of them? Pods that share a name with another pod
+	// (re-created while the old sandbox terminates) get unique names here, so that what the plugin does with
+	// same-name containers - part of what is being checked - cannot influence the answer.
+	seenName := map[string]int{}
+	for _, p := range pods {
+		k := p.Namespace + "/" + p.Name
+		if n := seenName[k]; n > 0 {
+			p.Name = fmt.Sprintf("%s-ref%d", p.Name, n)
+		}
+		seenName[k]++
+	}
 	ok := true
 	if p, _ := Guard2(func() { _, err = twin.RM.Synchronize(pods, ctrs) }); p != "" || err != nil {
 		return false, err
